@@ -239,9 +239,19 @@ struct static_array  // NOLINT(fuchsia-multiple-inheritance) : multiple inherita
 		);
 	}
 
-	constexpr static_array(decay_type&& other, allocator_type const& alloc) noexcept
-	: array_alloc{alloc}, ref(std::exchange(other.base_, nullptr), other.extensions()) {
-		std::move(other).layout_mutable() = typename static_array::layout_type(typename static_array::extensions_type{});  // = {};  careful! this is the place where layout can become invalid
+	constexpr static_array(decay_type&& other, allocator_type const& alloc) noexcept(multi::allocator_traits<allocator_type>::is_always_equal::value)
+	: array_alloc{alloc}
+	, ref(
+		(alloc == other.get_allocator())  // the source's block can only be adopted by an equal allocator
+			?std::exchange(other.base_, nullptr)
+			:array_alloc::allocate(static_cast<typename multi::allocator_traits<allocator_type>::size_type>(other.num_elements()))
+		, other.extensions()
+	) {
+		if(alloc == other.get_allocator()) {
+			std::move(other).layout_mutable() = typename static_array::layout_type(typename static_array::extensions_type{});  // = {};  careful! this is the place where layout can become invalid
+		} else {
+			adl_alloc_uninitialized_move_n(this->alloc(), other.data_elements(), other.num_elements(), this->data_elements());  // other keeps its (moved-from) elements and its own block
+		}
 	}
 
 	constexpr explicit static_array(decay_type&& other) noexcept
@@ -1293,9 +1303,16 @@ struct array : static_array<T, D, Alloc> {
 	}
 
 #ifndef NOEXCEPT_ASSIGNMENT
-	auto operator=(array&& other) noexcept -> array& {
+	auto operator=(array&& other) noexcept(multi::allocator_traits<typename array::allocator_type>::propagate_on_container_move_assignment::value || multi::allocator_traits<typename array::allocator_type>::is_always_equal::value) -> array& {
 		if(this == std::addressof(other)) {
 			return *this;
+		}
+		if constexpr(!multi::allocator_traits<typename array::allocator_type>::propagate_on_container_move_assignment::value && !multi::allocator_traits<typename array::allocator_type>::is_always_equal::value) {
+			if(this->alloc() != other.alloc()) {  // a block of an unequal, non-propagating allocator cannot be adopted: copy the value with this array's allocator
+				operator=(static_cast<array const&>(other));
+				other.clear();
+				return *this;
+			}
 		}
 		clear();
 		this->base_ = other.base_;
@@ -1309,7 +1326,11 @@ struct array : static_array<T, D, Alloc> {
 	}
 
 	auto operator=(array const& other) -> array& {
-		if(array::extensions() == other.extensions()) {
+		bool keep_storage = (array::extensions() == other.extensions());
+		if constexpr(multi::allocator_traits<typename array::allocator_type>::propagate_on_container_copy_assignment::value && !multi::allocator_traits<typename array::allocator_type>::is_always_equal::value) {
+			if(this->alloc() != other.alloc()) {keep_storage = false;}  // the current block must be released through the allocator that produced it before the allocator is replaced
+		}
+		if(keep_storage) {
 			if(this == &other) {
 				return *this;
 			}  // required by cert-oop54-cpp
